@@ -126,6 +126,53 @@ class _Canon(ast.NodeTransformer):
             ast.fix_missing_locations(p_)
         return pre
 
+    # -- match over literals: `match x: case None: A; case 1 | 2: B; case _: C` is the if/elif/else chain on `x is None`, `x in (1, 2)`
+    _match_uid = 0
+
+    @classmethod
+    def _pattern_test(cls, subject: ast.expr, p: ast.pattern):
+        """The boolean expression a literal pattern abbreviates; True for the wildcard; None when the pattern binds or destructures."""
+        import copy
+        if isinstance(p, ast.MatchSingleton):
+            return ast.Compare(left=copy.deepcopy(subject), ops=[ast.Is()], comparators=[ast.Constant(value=p.value)])
+        if isinstance(p, ast.MatchValue) and (isinstance(p.value, ast.Constant) or _simple_ref(p.value)
+                                               or (isinstance(p.value, ast.UnaryOp) and isinstance(p.value.operand, ast.Constant))):
+            return ast.Compare(left=copy.deepcopy(subject), ops=[ast.Eq()], comparators=[p.value])
+        if isinstance(p, ast.MatchAs) and p.pattern is None and p.name is None:
+            return True
+        if isinstance(p, ast.MatchOr):
+            parts = [cls._pattern_test(subject, q) for q in p.patterns]
+            if any(t is None for t in parts):
+                return None
+            if any(t is True for t in parts):
+                return True
+            return ast.BoolOp(op=ast.Or(), values=parts)
+        return None
+
+    def visit_Match(self, node: ast.Match):  # noqa: N802
+        self.generic_visit(node)
+        pre: list[ast.stmt] = []
+        subject = node.subject
+        if not isinstance(subject, ast.Name):
+            _Canon._match_uid += 1
+            tmp = f"match__subject{_Canon._match_uid}"
+            pre.append(ast.copy_location(ast.Assign(targets=[ast.Name(id=tmp, ctx=ast.Store())], value=subject), node))
+            subject = ast.copy_location(ast.Name(id=tmp, ctx=ast.Load()), node.subject)
+        tests = [self._pattern_test(subject, c.pattern) for c in node.cases]
+        if any(t is None for t in tests):
+            return node
+        chain: list[ast.stmt] = []          # what runs when no case matched so far
+        for c, t in reversed(list(zip(node.cases, tests))):
+            if t is True and c.guard is None:
+                chain = list(c.body)
+                continue
+            test = c.guard if t is True else (t if c.guard is None else ast.BoolOp(op=ast.And(), values=[t, c.guard]))
+            chain = [ast.copy_location(ast.If(test=test, body=list(c.body), orelse=chain), c.body[0])]
+        out = [*pre, *chain] or [ast.copy_location(ast.Pass(), node)]
+        for x in out:
+            ast.fix_missing_locations(x)
+        return out
+
     def visit_If(self, node: ast.If):  # noqa: N802
         self.generic_visit(node)
         pre = self._hoist_walrus(node, "test")
